@@ -151,6 +151,40 @@ func (p *Parser) ParseFile(filename string, varPool *VarPool) (*MetaData, []*Bui
 		}
 	}
 
+	// The package's own _test.go files are not loaded, but go test and go vet compile them together with
+	// the output: what they declare at package level is as taken as the names above.
+	testDecls := map[string]token.Position{}
+	testFiles, _ := filepath.Glob(filepath.Join(filepath.Dir(absFilename), "*_test.go"))
+	for _, testFile := range testFiles {
+		f, parseErr := parser.ParseFile(p.fset, testFile, nil, parser.SkipObjectResolution)
+		if f == nil || f.Name == nil || f.Name.Name != pkg.Name {
+			_ = parseErr // (an external test package, or not a Go file)
+			continue
+		}
+		for _, decl := range f.Decls {
+			var names []*ast.Ident
+			switch decl := decl.(type) {
+			case *ast.GenDecl:
+				for _, spec := range decl.Specs {
+					switch spec := spec.(type) {
+					case *ast.ValueSpec:
+						names = append(names, spec.Names...)
+					case *ast.TypeSpec:
+						names = append(names, spec.Name)
+					}
+				}
+			case *ast.FuncDecl:
+				if decl.Recv == nil {
+					names = append(names, decl.Name)
+				}
+			}
+			for _, name := range names {
+				_ = varPool.GetName(name.Name)
+				testDecls[name.Name] = p.fset.Position(name.Pos())
+			}
+		}
+	}
+
 	// The functions the package's kessoku.Inject declarations generate are package-level names too
 	// (the files that declare them are skipped above as generated): an import or a variable of the
 	// generated code must not take one of them.
@@ -207,6 +241,9 @@ func (p *Parser) ParseFile(filename string, varPool *VarPool) (*MetaData, []*Bui
 			}
 			if declared[name] > 1 {
 				return nil, nil, fmt.Errorf("injector name %s is used by %d kessoku.Inject declarations of the package", name, declared[name])
+			}
+			if pos, ok := testDecls[name]; ok {
+				return nil, nil, fmt.Errorf("injector name %s is already declared at %s", name, pos)
 			}
 			if obj := pkg.Types.Scope().Lookup(name); obj != nil {
 				if f := p.fileOf(pkg, obj.Pos()); f != nil && !isKessokuGenerated(f) {
